@@ -11,7 +11,9 @@ RULE = ("case = one generated rule-rich configuration (2-8 arguments; mandatory 
         "long keys from prefix chains in random definition order, level counters) + one abstract line the python model "
         "judges VALID in the documented order-sensitive sense (requiring/excluding argument before its partner; values on "
         "the inclusive lower / just below the exclusive upper bound) rendered in up to 6 (quick) / 16 (thorough) spellings "
-        "(short, long, abbreviated, '=', glued, grouped, permuted where the rules allow). Oracle: accepted, and the "
+        "(short, long, abbreviated, '=', glued, grouped, permuted where the rules allow); optional tails: a multi-value list as "
+        "separate words ended by a flag and followed by the positional value; a tuple whose three values come in one list, "
+        "in repeated uses or as separate words. Oracle: accepted, and the "
         "destinations equal the model (a wrong value is reported under the C01-style key). non-trivial = line with >= 2 "
         "uses in a configuration with >= 1 rule; distinct = hash of (configuration, argv).")
 ASSUMPTIONS = ["python model lib/argh.py: valid() and expected()", "all_of with no member used, and repeated use of one any_of/one_of member, are never generated (documentation ambiguous)",
@@ -53,7 +55,21 @@ def gen_case(seed, idx, tier):
         free = rng.choice(["out.txt", "7", "x"])
         tail = ["--zz-multi-values"] + vals + ["--zz-quiet-flag", free]
         exp.update({"vi9": [int(v) for v in vals], "b9": True, "s9": free})
-    c.meta.update(cfg=cfg, uses=uses, argvs=[], exp=exp, tail=bool(tail))
+    # optional second tail: a tuple destination whose three values arrive in one list, in repeated uses or (multi-value) as
+    # separate words - each a legal way to give exactly three values
+    ttails = None
+    if rng.random() < 0.2 and not any(a.short == "T" or (a.long or "").startswith("zz-tr") for a in cfg.args):
+        tp = argh.Arg("tu9", "T", "zz-triple")
+        tp.multi = rng.random() < 0.5
+        cfg.args.append(tp)
+        v = [str(rng.randint(0, 99)), rng.choice(["two", "x", "Ab"]), rng.choice(["3.5", "0.25", "7"])]
+        k = lambda: rng.choice(["-T", "--zz-triple"])
+        ttails = [[k(), ",".join(v)], [k(), v[0], k(), v[1], k(), v[2]], [k(), v[0] + "," + v[1], k(), v[2]], [k(), v[0], k(), v[1] + "," + v[2]],
+                  ["--zz-triple=" + v[0], "-T" + v[1], "-T", v[2]]]
+        if tp.multi:
+            ttails += [[k()] + v, [k(), v[0] + "," + v[1], v[2]], [k(), v[0], v[1] + "," + v[2]], ["--zz-triple=" + v[0], v[1], v[2]]]
+        exp["tu9"] = (int(v[0]), v[1], float(v[2]))
+    c.meta.update(cfg=cfg, uses=uses, argvs=[], exp=exp, tail=bool(tail), ttail=ttails is not None)
     seen = set()
     for k in range(nsp):
         style = STYLES[k] if k < len(STYLES) else {}
@@ -62,6 +78,8 @@ def gen_case(seed, idx, tier):
             words, st = argh.spell_line(cfg, order, rng, style)
         except argh.ModelAbstain:
             continue
+        if ttails:
+            words = words + ttails[(k + idx) % len(ttails)]
         words = words + tail
         key = "\x00".join(words)
         if key in seen:
@@ -101,6 +119,8 @@ def judge(c, results, rep):
         rep.stat("rule." + t)
     if c.meta.get("tail"):
         rep.stat("tail.multi-values_flag_positional")
+    if c.meta.get("ttail"):
+        rep.stat("tail.tuple_values_over_uses_and_words")
     for (sid, text), (words, st, order) in zip(c.scenarios, c.meta["argvs"]):
         r = results[sid]
         for k, v in st.items():
@@ -123,6 +143,17 @@ def judge(c, results, rep):
             continue
         bad = 0
         for a in cfg.args:
+            if a.slot == "tu9":
+                d = r.slots.get("tu9", "?")
+                try:
+                    p = d[1:-1].split(",")
+                    got = (int(p[0]), bytes.fromhex(p[1][1:]).decode("latin-1"), float.fromhex(p[2]))
+                except (ValueError, IndexError):
+                    got = d
+                if got != exp["tu9"]:
+                    bad += 1
+                    rep.viol("wrong-value|tuple", "slot tu9 = %r, expected %r | argv=%r" % (got, exp["tu9"], words), [text])
+                continue
             got = argh.parse_dump(a.slot, r.slots.get(a.slot, "?"))
             if not argh.values_equal(a.slot, got, exp[a.slot]):
                 bad += 1
